@@ -40,7 +40,7 @@ func isErrorType(t types.Type) bool { return t.String() == "error" }
 
 func c13(r *core.Run) {
 	p := r.P
-	r.Explain = "C13 decided on the finite control structure of the audit path: (EXIT) the verdict→status mapper returns 0 only on the true edge of an equality with MATCH (other constants gating exit 0 must be unreachable: rejected by the whitelist after case folding and never assigned as a verdict), every other return is a non-zero constant, and main turns err!=nil / status!=0 into a non-zero exit; (DEFAULT) the stored audit result is a constant ERROR, a constant MATCH only on the no-high-risk edge, or the provider result only on err==nil; (LLM) every return of the verdict producer is a literal ERROR/LIE/SUSPICIOUS or the provider value dominated by sentinel-safe, sentinel err==nil, provider err==nil and validator==nil; (WL) whitelist keys ⊆ {MATCH,SUSPICIOUS,LIE}, a miss and every forbidden phrase return non-nil; (SENT) safe is false on every error return and otherwise the decoded field after a successful Unmarshal; (HTTP) success returns only under status==200 and a role test (OpenAI) / err==nil (Gemini); (ENV) the commit message reaches the payload only through json.Marshal*, both envelope delimiters take one nonce that comes from the nonce generator, whose default reads crypto/rand and propagates its error. Not decided: robustness of the JSON-extraction regexes, the model's behaviour."
+	r.Explain = "C13 decided on the finite control structure of the audit path: (EXIT) the verdict→status mapper returns 0 only on the true edge of an equality with MATCH (other constants gating exit 0 must be unreachable: rejected by the whitelist after case folding and never assigned as a verdict), every other return is a non-zero constant, and main turns err!=nil / status!=0 into a non-zero exit; (DEFAULT) the stored audit result is a constant ERROR, a constant MATCH only on the no-high-risk edge, or the provider result only on err==nil; (LLM) every return of the verdict producer is a literal ERROR/LIE/SUSPICIOUS or the provider value dominated by sentinel-safe, sentinel err==nil, provider err==nil and validator==nil; (WL) whitelist keys ⊆ {MATCH,SUSPICIOUS,LIE}, a miss and every forbidden phrase return non-nil; (SENT) safe is false on every error return and otherwise the decoded field after a successful Unmarshal; (HTTP) success returns only under status==200 and a role test (OpenAI) / err==nil (Gemini); (ENV) the commit message reaches the payload only through json.Marshal*, both envelope delimiters take one nonce that comes from the nonce generator, whose default reads crypto/rand and propagates its error. Not decided: robustness of the JSON-extraction regexes, the model's behaviour. (PARSE) the answer parser returns a result only after json.Unmarshal of the whole text (or a streaming decode followed by a trailing-data test)."
 	r.Undecided = []string{"robustness of cleanJSONMarkdown's regex/brace heuristics on hostile text", "what the provider answers"}
 	r.Assume = []string{"encoding/json escapes string values so that a JSON string cannot contain a raw newline or unescaped quote", "os.Exit terminates the process"}
 
